@@ -51,3 +51,15 @@ pub(crate) fn driver_factory(
         _ => None,
     }
 }
+
+/// Verification seam: the crate-private driver factory.
+#[cfg(feature = "verif")]
+pub fn verif_driver_factory(
+    vendor: &str,
+    product: &str,
+    interface: &str,
+    da: u8,
+    sa: u8,
+) -> Option<Box<dyn crate::runtime::J1939Unit>> {
+    driver_factory(vendor, product, interface, da, sa)
+}
